@@ -140,6 +140,15 @@ func lockedOpenScenario(c *sup.Ctx, r *rng.R) {
 	reportCrash(c, run, &o)
 }
 
+// creationKillScenario: the kill lands while OpenBucket is still creating the bucket (schema, bucket row, default
+// collection are separate commits); N sweeps every pwrite64 of that phase.
+func creationKillScenario(c *sup.Ctx, r *rng.R) {
+	run := &crash.Run{Tmp: c.Tmp, Strace: 1 + c.Local%130, Writer: crash.WriterArgs{Seed: c.Seed*1000 + uint64(c.Local/130), Ops: 2}, Reader: crash.ReaderArgs{Mode: 2 - 2*(c.Local%2), NewWrites: 1}}
+	o := run.Execute()
+	c.Count("kills_aimed_at_bucket_creation", 1)
+	reportCrash(c, run, &o)
+}
+
 func straceKillScenario(c *sup.Ctx, r *rng.R) {
 	hist := uint64(c.Local % 12)
 	// opening the bucket (schema, collections, design document) takes ~120 pwrite64 calls spread over several
@@ -242,6 +251,7 @@ func init() {
 			crashPart("kills-during-admin-calls", 160, 2400, adminKillScenario),
 			crashPart("pwrite-kills", 144, 6000, straceKillScenario),
 			crashPart("pwrite-kills-in-drop-cycles", 160, 1600, dropCycleKillScenario),
+			crashPart("pwrite-kills-during-creation", 130, 520, creationKillScenario),
 			crashPart("controls", 45, 300, controlScenario),
 			crashPart("open-fails-while-locked", 6, 40, lockedOpenScenario),
 			crashPart("reopen-clock", 40, 1200, reopenClockScenario),
